@@ -146,10 +146,63 @@ def findLoop (gs : GS) (label : Option String) : Option Nat :=
   | none => gs.loopstack.head?
   | some l => gs.loopstack.find? (fun id => (gs.loops.getD id {}).label == some l)
 
+/-- `formalsBind` (generator.go, fix C03-01): `f`, the lazy `#f`, the typed `f:`. -/
+def formalsBind (x : String) (ps : List String) : Bool :=
+  ps.any (fun p => p == x || p == "#" ++ x || p == x ++ ":")
+
+/-- `assignsIn`: `x = v` / `x := v` among the elements of a list or array (only symbols
+between the name and the operator). -/
+def assignsIn (x : String) : Bool → List Expr → Bool
+  | _, [] => false
+  | seen, .sym y :: rest =>
+    if y == "=" || y == ":=" then (seen || assignsIn x seen rest)
+    else assignsIn x (seen || y == x) rest
+  | _, _ :: rest => assignsIn x false rest
+
+mutual
+/-- `bindsName` (generator.go, fix C03-01): does the form bind or assign the symbol `x` —
+as the target of `let`/`letseq`/`def`/`defn`/`set`/`=`/`:=` or as a parameter of a nested
+function? A use of `x` as a value does not count. (Go walks the raw s-expression; these
+are the same positions on the elaborated form. `mdef`, `defmac`, `range`, `func` are
+outside the core language.) -/
+def binds (x : String) : Expr → Bool
+  | .int _ | .bool _ | .str _ | .nilLit | .bad _ | .sym _ | .break_ _ | .continue_ _ => false
+  | .arr es => assignsIn x false es || bindsList x es
+  | .call f args => assignsIn x false (f :: args) || binds x f || bindsList x args
+  | .begin_ es => bindsList x es
+  | .def_ y e => y == x || binds x e
+  | .set_ y e => y == x || binds x e
+  | .cond arms d => bindsArms x arms || binds x d
+  | .and_ es => bindsList x es
+  | .or_ es => bindsList x es
+  | .let_ _ bs body => bindsBinds x bs || bindsList x body
+  | .newScope es => bindsList x es
+  | .for_ _ i t s body => binds x i || binds x t || binds x s || bindsList x body
+  | .fn ps rest body => formalsBind x (ps ++ rest.toList) || bindsList x body
+  | .defn n ps rest body => n == x || formalsBind x (ps ++ rest.toList) || bindsList x body
+  | .assign l r => binds x l || binds x r
+def bindsList (x : String) : List Expr → Bool
+  | [] => false
+  | e :: es => binds x e || bindsList x es
+def bindsArms (x : String) : List (Expr × Expr) → Bool
+  | [] => false
+  | (p, b) :: r => binds x p || binds x b || bindsArms x r
+def bindsBinds (x : String) : List (String × Expr) → Bool
+  | [] => false
+  | (y, e) :: r => y == x || binds x e || bindsBinds x r
+end
+
+/-- `rebindsOwnName` (fix C03-01): the function binds or assigns its own name — as a
+parameter, or somewhere in its body; `buildSexpFun` then clears `gen.funcname`, so no call in
+the body is compiled as a self tail call. Using the name as a value keeps the jump. -/
+def rebindsOwnName (name : String) (ps : List String) (rest : Option String) (body : List Expr) : Bool :=
+  !name.isEmpty && (formalsBind name (ps ++ rest.toList) || bindsList name body)
+
 /-- `buildSexpFun`, first half: the template is registered (for `knownFunctions`) before
-the body is compiled. Returns the template index and the context for the body. -/
-def allocTemplate (isFn : Nat → Bool) (c : Ctx) (name : String) (ps : List String) (rest : Option String) :
-    G (Nat × Ctx) := do
+the body is compiled. Returns the template index and the context for the body.
+`selfTail = false`: `gen.funcname` is cleared (see `rebindsOwnName`). -/
+def allocTemplate (isFn : Nat → Bool) (c : Ctx) (name : String) (ps : List String) (rest : Option String)
+    (selfTail : Bool := true) : G (Nat × Ctx) := do
   let gs ← get
   let t := gs.fns.length
   let params := ps ++ rest.toList
@@ -157,7 +210,7 @@ def allocTemplate (isFn : Nat → Bool) (c : Ctx) (name : String) (ps : List Str
   set { gs with fns := gs.fns ++ [({ name := fname, nargs := ps.length, varargs := rest.isSome, params,
                                       closing := newClosing isFn gs.live } : FnObj)] }
   let known := if name.isEmpty then c.known else (name, t) :: c.known
-  pure (t, ({ tail := true, scopes := 0, funcname := fname, known } : Ctx))
+  pure (t, ({ tail := true, scopes := 0, funcname := if selfTail then fname else "", known } : Ctx))
 
 /-- `buildSexpFun`, second half: prologue, body, epilogue. -/
 def finishTemplate (t : Nat) (b : List Instr) : G Unit :=
@@ -259,7 +312,7 @@ def compile (isFn : Nat → Bool) (c : Ctx) : Expr → G (List Instr × Bool)
     finishTemplate t b
     pure ([.createClosure t], c.tail)
   | .defn name ps rest body => do
-    let (t, cb) ← allocTemplate isFn c name ps rest
+    let (t, cb) ← allocTemplate isFn c name ps rest (!rebindsOwnName name ps rest body)
     let (b, _) ← compileBegin isFn cb body
     finishTemplate t b
     pure ([.createClosure t, .popStackPutEnv name, .push .nil], c.tail)
